@@ -108,5 +108,8 @@ func XE2(ctx context.Context)
 func M1(k A, v B) error
 func M2(ctx context.Context, k A, v B)
 func ME() error
+func ME2(ctx context.Context) error
+func XE3(ctx context.Context) error
+func ME3()
 
 // END-USERFNS
